@@ -1471,6 +1471,87 @@ def f57():
     return None
 
 
+@witness("F59", "C15")
+def f59():
+    import greenback
+    import greenlet
+    import trio
+    from stackscope import extract
+
+    def no_abort(_):
+        return trio.lowlevel.Abort.FAILED
+
+    bad = []
+    for levels in (2, 3):
+        out = {}
+
+        async def park():
+            task = trio.lowlevel.current_task()
+
+            def cb():
+                out["outside"] = extract(task.coro)
+                trio.lowlevel.reschedule(task)
+
+            trio.lowlevel.current_trio_token().run_sync_soon(cb)
+            await trio.lowlevel.wait_task_rescheduled(no_abort)
+            out["inside"] = extract(task.coro)
+
+        def nest(n):
+            if n == 0:
+                greenback.await_(park())
+            else:
+                greenlet.greenlet(nest).switch(n - 1)
+
+        def sync_fn():
+            nest(levels)
+
+        async def main():
+            await greenback.ensure_portal()
+            sync_fn()
+
+        trio.run(main)
+        want = ["greenback_shim", "main", "sync_fn"] + ["nest"] * (levels + 1) + ["park"]
+        for where in ("outside", "inside"):
+            got = [f.funcname for f in out[where].frames if not f.hide]
+            if got != want or out[where].error is not None:
+                bad.append(f"nesting {levels}, from {where}: visible frames {got} error {out[where].error!r}; want {want}")
+    if bad:
+        return "F59: greenback.await_() made from a user greenlet nested two or more levels deep: " + "; ".join(bad[:2])
+    return None
+
+
+@witness("F60", "C07")
+def f60():
+    import threading
+    import stackscope
+
+    res = {}
+    for _ in range(30):
+        a = threading.Thread(target=lambda: None)
+        a.start()
+        a.join()
+
+        def insp():
+            res["same"] = a.ident == threading.get_ident()
+            res["st"] = stackscope.extract(a)
+
+        b = threading.Thread(target=insp)
+        b.start()
+        b.join()
+        if res["same"]:
+            break
+    if not res.get("same"):
+        return None          # the platform did not hand the ident on: nothing to observe here
+    st = res["st"]
+    if st.frames or st.error is not None:
+        return (f"F60: extract(finished thread) from a thread that was given the finished thread's ident returned "
+                f"{[f.funcname for f in st.frames]} (error {st.error!r}); a finished thread has no frames")
+    me = stackscope.extract(threading.current_thread())
+    if not me.frames or me.frames[-1].funcname != "f60":
+        return f"F60: extract(current_thread()) no longer ends at the caller: {[f.funcname for f in me.frames][-3:]}"
+    return None
+
+
 def known_witness(wid: str, *pids: str):
     def deco(fn):
         W[wid] = fn
